@@ -4,7 +4,7 @@
    decoder model, with the bitwise CRC-16/ARC of Spec/CrcSpec.v. *)
 From Coq Require Import NArith ZArith List Bool String.
 From FitV Require Import Model.Values Model.Bytes Model.Header Model.Route Model.Encode
-  Spec.CrcSpec Spec.Grammar Spec.RoundTrip Proofs.EncodeProofs Proofs.C05Grammar Proofs.C05Wire Proofs.EncExamples.
+  Spec.CrcSpec Spec.Grammar Spec.RoundTrip Proofs.EncodeProofs Proofs.C05Grammar Proofs.C05Wire Proofs.C07Reencode Proofs.EncExamples.
 Import ListNotations.
 Local Open Scope N_scope.
 
@@ -69,6 +69,14 @@ Proof. exact encode_wire_array256_refuted. Qed.
 
 Theorem C05_profile_msgs_ok2 : forallb msg_ok2 Gen.ProfileData.messages = true.
 Proof. exact profile_msgs_ok2. Qed.
+
+(* totality: on every well-formed File Encode returns bytes or the UTF-8 error of encodeString; it never panics *)
+Theorem C05_encode_total : forall f be, wf_file f = true ->
+  (exists r, encode f be = EOk r) \/ encode f be = EErr EEString.
+Proof. exact encode_total. Qed.
+Theorem C05_encode_no_panic : forall f be w, wf_file f = true -> encode f be <> EPanic w.
+Proof. exact encode_no_panic. Qed.
+Print Assumptions C05_encode_total.
 
 (* non-vacuity: a well-formed activity File with two records encodes, and the
    complete recogniser (records and wire values included) accepts the bytes *)
